@@ -223,7 +223,10 @@ PARTIAL = {
     "lset.set": ({"TypeError"}, "lset.set() of unhashable elements"),
     "collections.Counter": ({"TypeError"}, "Counter() of unhashable elements"),
     "lqueue.queue": ({"TypeError"}, "queue() of a non-iterable"),
+    "issubclass": ({"TypeError"}, "issubclass() of a non-class"),
 }
+# calls of a callable looked up by name from the input text (record / type factories): <x>.value(...)
+FACTORY_CALL = ({"TypeError"}, "a factory looked up from the tag, called with the literal's elements")
 EXC_PARENT = {"InvalidOperation": "ArithmeticError", "ZeroDivisionError": "ArithmeticError", "error": "Exception", "ValueError": "Exception", "TypeError": "Exception", "OverflowError": "ArithmeticError", "ArithmeticError": "Exception", "Exception": "BaseException"}
 
 
@@ -337,10 +340,34 @@ def r1_only_syntax_errors_escape(ctx):
                 ctx.ob("C16.R1", f"{RD}::{fname}::raise {txt}", RD, r.lineno, ok, "" if ok else f"`raise {txt}` escapes the reader as a non-syntax exception")
         for c in P.calls(fn, into_defs=True):
             name = P.un(c.func)
+            is_factory = isinstance(c.func, ast.Attribute) and c.func.attr == "value" and isinstance(c.func.value, ast.Name) and any(
+                isinstance(a, ast.Assign) and P.un(a.targets[0]) == c.func.value.id and isinstance(a.value, ast.Call) and P.un(a.value.func).startswith("Var.find") for a in ast.walk(fn))
+            if is_factory:
+                excs, descr = FACTORY_CALL
+                handlers = _enclosing_handlers(c, fn)
+                uncovered = {e for e in excs if not any(_handler_covers(h, e) and _handler_raises_syntax(h) for h in handlers)}
+                ctx.ob("C16.R1", f"{RD}::{fname}::{P.un(c)}", RD, c.lineno, not uncovered,
+                       "covered by a handler that raises a syntax error" if not uncovered else f"{descr}, can raise {sorted(uncovered)} (wrong number of fields) and no enclosing handler turns it into a syntax error",
+                       witness="(defrecord Pt [x y]) then #my.ns.Pt [1]")
+                continue
             if name not in PARTIAL or not c.args and not c.keywords:
                 continue
             excs, descr = PARTIAL[name]
             handlers = _enclosing_handlers(c, fn)
+            if name == "issubclass":
+                # discharged by a dominating `isinstance(<arg>, type)` test (the False outcome must not reach the call)
+                arg = P.un(c.args[0])
+                g = CFG(fn)
+                nodes = [nd for nd in g.nodes if nd.ast is not None and nd.kind in ("stmt", "test") and P.contains(nd.ast, c)]
+
+                def is_class(a, b, lab, arg=arg):
+                    return a.kind == "test" and lab is True and P.un(a.ast) == f"isinstance({arg}, type)"
+                ok = bool(nodes) and all(g.edge_dominated(nd, is_class) for nd in nodes)
+                ok = ok or not {e for e in excs if not any(_handler_covers(h, e) and _handler_raises_syntax(h) for h in handlers)}
+                ctx.ob("C16.R1", f"{RD}::{fname}::{P.un(c)}", RD, c.lineno, ok,
+                       "" if ok else f"issubclass({arg}, ...) raises TypeError when `{arg}` -- whatever attribute the tag names -- is not a class, and nothing turns it into a syntax error",
+                       witness="#basilisp.core.first [1]")
+                continue
             uncovered = {e for e in excs if not any(_handler_covers(h, e) and _handler_raises_syntax(h) for h in handlers)}
             arg0 = c.args[0] if c.args else c.keywords[0].value
             inst = f"{RD}::{fname}::{P.un(c)}"
@@ -1324,6 +1351,10 @@ SELFTEST = [
      "old": "    \"@\": _read_deref,\n", "new": "    \"@\": _read_deref,\n    \"$\": _read_deref,\n"},
     {"name": "prompt swallows EOF as error", "file": PROMPT, "expect": "C16.R6",
      "old": "            except reader.UnexpectedEOFError:\n                event.current_buffer.insert_text(\"\\n\")\n            except reader.SyntaxError as e:", "new": "            except reader.SyntaxError as e:"},
+    {"name": "record macro calls issubclass on a non-class (the repaired defect)", "file": RD, "expect": "C16.R1",
+     "old": "    if not isinstance(rectype, type):\n        raise ctx.syntax_error(f\"Var {s} is not a Record or Type\")\n", "new": ""},
+    {"name": "record factory called without a handler (the repaired defect)", "file": RD, "expect": "C16.R1",
+     "old": "            try:\n                return mapfactory.value(v)\n            except TypeError as e:\n                raise ctx.syntax_error(f\"Unable to construct {s} from a map\") from e\n", "new": "            return mapfactory.value(v)\n"},
     {"name": "namespaced map prefix trusts the next character (the repaired defect)", "file": RD, "expect": "C16.R3",
      "old": "    if char != \"{\":\n        raise ctx.syntax_error(\n            f\"Expected '{{' after namespaced map prefix '#:{map_ns}'; got '{char}'\"\n        )\n", "new": ""},
     {"name": "twin: namespaced map prefix guard written positively", "file": RD, "expect": None,
